@@ -15,7 +15,7 @@ import (
 func init() {
 	register(&Spec{ID: "C16", Title: "Decimal text conversion preserves the numeric value", Run: runC16,
 		Meta: core.Meta{
-			Explanation: "R16.10 also covers Negate (only big.Int.Neg). R16.13: NewDecimal stores a big.Int allocated by that call. R16.11: every return of Decimal.Cmp other than the constant false is under the equal edges of the Precision and the Scale comparison. R16.12: NewDecimal stores its parameters themselves into Precision and Scale (what sanity() then inspects). R16.10 (second clause): SetInt64 and SetBytes call no math/big method on the decimal other than the one of the same name. R16.10: Decimal.SetBytes passes its parameter itself to big.Int.SetBytes. R16.6 (second clause): the reading methods of *Decimal (all but Set*, Negate) store nothing through the receiver — no cached text or derived state. R16.8: no function of package asetypes rebuilds a big.Int/Decimal with SetBytes(x.Bytes()) without also consulting the sign. R16.9: every copy of Decimal.Bytes() into the DECN/NUMN image in DataType.Bytes starts at size-len(Decimal.Bytes()). Two rejection clauses of the property are decided; digit arithmetic is not. R16.1 ('invalid precision/scale combinations are rejected at construction'): every success return of NewDecimal and NewDecimalString is dominated by sanity() having returned nil, and sanity's error guards, normalised to half-planes over (Precision, Scale), cover the complement of the valid region 0 <= scale <= precision <= 38, i.e. {P < 0, P > 38, S < 0, S > P}. R16.2 ('input that cannot be represented is rejected'): every success return of SetString is dominated by a comparison of the fraction's length with Scale whose failing edge returns an error, and by big.Int.SetString having reported ok. R16.4 ('rejected instead of silently changing the value'): every math/big call in SetString that modifies its receiver (SetString, Mul, ...) works on a big.Int allocated by that very call, never on dec.i or an alias of it, so an error return leaves the decimal — and every copy sharing its pointer — untouched. R16.5 ('for every precision 1..38 and scale'): every slice/string index and slice expression in the methods of Decimal is proved in range by E-LEN or rests on the reviewed invariant 0 <= Scale <= Precision, whose premises (R10.6) are re-checked — a formatting shortcut that slices a fixed pad or digit table can panic for some precision. R16.6: no method of Decimal other than its mutators by contract (Set*, Negate) calls a receiver-modifying math/big method (Abs, Neg, Mul, Set, ...) on dec.i itself — String() on a negative value would otherwise leave the decimal positive, and the text just produced would no longer denote the stored value. R16.7: every big.Int.Int64()/Uint64() call in a method of Decimal is guarded by IsInt64()/IsUint64() on the same value or by a BitLen test. R16.3: the magnitude is only ever produced by math/big operations on the parsed digits inside SetString (the assigned value is the *big.Int that SetString parsed and Mul scaled).",
+			Explanation: "R16.14: every package-level array or slice literal of asetypes that starts 1, 10 holds 10^i at index i (zero such tables today; the scan itself is the obligation). R16.10 also covers Negate (only big.Int.Neg). R16.13: NewDecimal stores a big.Int allocated by that call. R16.11: every return of Decimal.Cmp other than the constant false is under the equal edges of the Precision and the Scale comparison. R16.12: NewDecimal stores its parameters themselves into Precision and Scale (what sanity() then inspects). R16.10 (second clause): SetInt64 and SetBytes call no math/big method on the decimal other than the one of the same name. R16.10: Decimal.SetBytes passes its parameter itself to big.Int.SetBytes. R16.6 (second clause): the reading methods of *Decimal (all but Set*, Negate) store nothing through the receiver — no cached text or derived state. R16.8: no function of package asetypes rebuilds a big.Int/Decimal with SetBytes(x.Bytes()) without also consulting the sign. R16.9: every copy of Decimal.Bytes() into the DECN/NUMN image in DataType.Bytes starts at size-len(Decimal.Bytes()). Two rejection clauses of the property are decided; digit arithmetic is not. R16.1 ('invalid precision/scale combinations are rejected at construction'): every success return of NewDecimal and NewDecimalString is dominated by sanity() having returned nil, and sanity's error guards, normalised to half-planes over (Precision, Scale), cover the complement of the valid region 0 <= scale <= precision <= 38, i.e. {P < 0, P > 38, S < 0, S > P}. R16.2 ('input that cannot be represented is rejected'): every success return of SetString is dominated by a comparison of the fraction's length with Scale whose failing edge returns an error, and by big.Int.SetString having reported ok. R16.4 ('rejected instead of silently changing the value'): every math/big call in SetString that modifies its receiver (SetString, Mul, ...) works on a big.Int allocated by that very call, never on dec.i or an alias of it, so an error return leaves the decimal — and every copy sharing its pointer — untouched. R16.5 ('for every precision 1..38 and scale'): every slice/string index and slice expression in the methods of Decimal is proved in range by E-LEN or rests on the reviewed invariant 0 <= Scale <= Precision, whose premises (R10.6) are re-checked — a formatting shortcut that slices a fixed pad or digit table can panic for some precision. R16.6: no method of Decimal other than its mutators by contract (Set*, Negate) calls a receiver-modifying math/big method (Abs, Neg, Mul, Set, ...) on dec.i itself — String() on a negative value would otherwise leave the decimal positive, and the text just produced would no longer denote the stored value. R16.7: every big.Int.Int64()/Uint64() call in a method of Decimal is guarded by IsInt64()/IsUint64() on the same value or by a BitLen test. R16.3: the magnitude is only ever produced by math/big operations on the parsed digits inside SetString (the assigned value is the *big.Int that SetString parsed and Mul scaled).",
 			NotDecided:  "The format/parse round trip, the canonical text form and all digit arithmetic (padding, splitting at precision-scale, powers of ten) are value-level and not decided; seeded changes that overflow an int64 fast path or a float power of ten are not detectable by these rules.",
 			Assumptions: []string{"math/big semantics"},
 		}})
@@ -48,6 +48,8 @@ func runC16(r *core.Run) {
 	defer negateFlips(r)
 	r.Rule("R16.13", "every decimal has a big.Int of its own", 1, false)
 	defer ownBigInt(r)
+	r.Rule("R16.14", "power-of-ten tables are exact", 1, false)
+	defer pow10TablesExact(r, "R16.14")
 
 	sanity := p.TryFunc("asetypes", "Decimal", "sanity")
 	inlineSanity := sanity == nil
